@@ -85,11 +85,15 @@ let run_sd () =
 (* the same for teams (Model/SubSlotTeam.v): sdt ... per task: ... effort_num effort_den nteam team.. ndeps ... *)
 let run_sdt () =
   let upper = geti () in
+  let start = z_of_int (geti ()) in
   let g = geti () in
   let res = getlist (fun () ->
       let w = Array.of_list (getlist (fun () -> geti () <> 0)) in
       let en = geti () in let ed = geti () in
-      { sr_work = (fun s -> let i = int_of_nat s in i < Array.length w && w.(i)); sr_eff = q_of en ed; sr_limits = [] }) in
+      let l = getlist getn in
+      { sr_work = (fun s -> let i = int_of_nat s in i < Array.length w && w.(i)); sr_eff = q_of en ed; sr_limits = l }) in
+  let lims = getlist (fun () -> let v = getn () in let per = z_of_int (geti ()) in let o = geti () in
+                        mk_slimit v start (z_of_int g) per (if o < 0 then None else Some (nat_of_int o))) in
   let tasks = getlist (fun () ->
       let leaf = geti () <> 0 in let leaves = getlist getn in
       let prio = z_of_int (geti ()) in let mile = geti () <> 0 in
@@ -97,9 +101,10 @@ let run_sdt () =
       let deps = getlist (fun () -> let t = getn () in let o = geti () <> 0 in let gp = z_of_int (geti ()) in
                            { sd_task = t; sd_onstart = o; sd_gap = gp }) in
       let pin = geti () in let lb = z_of_int (geti ()) in
+      let tl = getlist getn in
       { tt_leaf = leaf; tt_leaves = leaves; tt_prio = prio; tt_mile = mile; tt_effort = q_of en ed; tt_team = team; tt_deps = deps;
-        tt_pin = (if pin < 0 then None else Some (z_of_int pin)); tt_lb = lb }) in
-  let p = { tp_tasks = tasks; tp_res = res; tp_upper = nat_of_int upper; tp_G = z_of_int g } in
+        tt_pin = (if pin < 0 then None else Some (z_of_int pin)); tt_lb = lb; tt_limits = tl }) in
+  let p = { tp_tasks = tasks; tp_res = res; tp_limits = lims; tp_upper = nat_of_int upper; tp_G = z_of_int g } in
   let (st, results) = tall_results p in
   let rs = List.map (fun d -> match d with
       | Some (s, e) -> Printf.sprintf "%d:%d" (int_of_z s) (int_of_z e) | None -> "-") results in
